@@ -151,12 +151,12 @@ def run(ctx):
         ctx.report(f"broken:{b.what}", b.what, {"unchecked": b.what, "detail": b.detail[-3000:]}, found_input=False)
     ctx.sample(jobs[0]["requests"][1])
     ctx.coverage.update({
-        "obligations": proof["obligations"] if proof else 9, "discharged": proof["discharged"] if proof else 0,
+        "obligations": proof["obligations"] if proof else 13, "discharged": proof["discharged"] if proof else 0,
         "theorems": proof["theorems"] if proof else [],
         "checker_cmd": "make -C coq Proofs/IterProofs.vo Proofs/LazyPoolBound.vo && coqc -Q coq Sedpack coq/Properties/C14.v (Print Assumptions under each theorem)",
         "trusted_base": common.TRUSTED_BASE_COMMON + [
-            "theorems bound each combinator over arbitrary (also endless) sources; the per-interface composition bound used by the implementation oracle (e.g. 3T+2+k for the shuffled concurrent reader) "
-            "is derived by hand from them and checked on runs with a shard-open spy (audit hook), not proved; the ordered readers are machines with proved bounds (batch machine = the generated composition on finite lists) "
+            "theorems bound each combinator over arbitrary (also endless) sources and every interface as a composition (sync, ordered/shuffled concurrent, ordered/shuffled async); the shuffled concurrent composition assumes the coupling "
+            "'round robin has pulled exactly what the pool has yielded' (generator semantics); the bounds used by the implementation oracle (e.g. 3T+2+k) are instances with m >= 1, checked on runs with a shard-open spy (audit hook); the ordered readers are machines with proved bounds (batch machine = the generated composition on finite lists) "
             "whose exact open counts on the real shard sizes are compared with the spy at every yield",
             "pull counts of the shuffle-buffer / round-robin machines are compared with the real generators at every yield",
             "Rust and tf.data read-ahead are not observed by the spy (native opens): oracle only"],
